@@ -27,6 +27,23 @@ CONFIG = {
              "random bytes, random structured garbage, empty file; 1 MiB files run on the implementation only and are judged by the driver; "
              "non-trivial = every case (each is a distinct file content); distinct = distinct history terms",
     ),
+    "C14": dict(
+        drivers=[("store", "store")], run="C14", shard=20,
+        header="From Whawty Require Import Names Record Store StoreSpec.",
+        rule="random histories on stores created by NewDirFromConfig from YAML the harness printed itself (2-4 sets, scrypt cost/r/p incl. defaulted r and p, argon2id time/memory/threads/length 16-64), "
+             "default switched mid-history; after every acknowledged write the file is compared byte-for-byte with the schema line built from the "
+             "digest the harness recomputed with x/crypto, the salt's size and freshness are checked (per history in Coq, across the run in the driver), "
+             "the recorded time must lie in the call window, the directory is scanned for passwords and the raw/base64 HMAC key; "
+             "non-trivial = history with an authenticate after an acknowledged write; distinct = distinct history terms",
+    ),
+    "C16": dict(
+        drivers=[("store", "store")], run="C16", shard=40,
+        header="From Whawty Require Import Names Record Store StoreSpec.",
+        rule="generated directories (about 45 % valid): supported/unsupported/empty hash files, several admins, .tmp as directory (empty or with residue), as file or absent, "
+             "other extensions, extension-less files, both extensions for one name, no admin, unsupported admin, sub-directories, an admin file that is a directory, "
+             "an only admin with an invalid name; ops per directory: check, list, list-full, init, check, exists; plus histories from init with a check after every operation; "
+             "non-trivial = every case; distinct = distinct history terms",
+    ),
     "C13": dict(
         drivers=[("sasl", "sasl")], run="C13", shard=600, header="From Whawty Require Import SaslCodec.",
         rule="cases: boundary-length encodes (exhaustive over {0,1,255,256,257}^4 + 65535/65536), every byte string up to length 5 (7 thorough) "
